@@ -31,7 +31,8 @@ def list_units():
             "c_statics": {"props": ["C18", "C08"], "tier": "quick", "doc": run_c_statics.__doc__},
             "tbb_seam": {"props": ["C08"], "tier": "quick", "doc": run_tbb_seam.__doc__},
             "hash_serde_derive": {"props": ["C14"], "tier": "quick", "doc": run_hash_serde_derive.__doc__},
-            "c_functional_text": {"props": ["C06"], "tier": "quick", "doc": run_c_functional_text.__doc__}}
+            "c_functional_text": {"props": ["C06"], "tier": "quick", "doc": run_c_functional_text.__doc__},
+            "zeroize_volatile": {"props": ["C17"], "tier": "quick", "doc": run_zeroize_volatile.__doc__}}
 
 
 def _sha(path):
@@ -483,6 +484,79 @@ def run_c_functional_text():
     return res
 
 
+def run_zeroize_volatile():
+    """C17's "zeroize leaves nothing behind" rests on the zeroize crate's VOLATILE writes; an ordinary store to an object
+    that is never read again is dead and optimised builds delete it - invisible to a postcondition, which is about the
+    abstract state right after the call. What the contracts assume is therefore pinned as a discipline of the source: the
+    body of every `impl Zeroize for T` in src/lib.rs is one destructuring `let Self {..} = self;` / `let Self(..) = self;`
+    followed only by `<field>.zeroize();` statements - no assignment, no `fill`, no `ptr::write`, no early return, no
+    condition. One obligation per impl; a breach fails the clause (`no-failing-input-found`: dead-store elimination has
+    no input)."""
+    import re
+    import sys
+    sys.path.insert(0, os.path.join(common.VERIF, "lib"))
+    import rstok
+    res = new_result("guard:zeroize_volatile", "guard", level="proof")
+    path = os.path.join(common.REPO, "src", "lib.rs")
+    res["cmd"] = "token scan of the Zeroize impls in src/lib.rs"
+    try:
+        toks = [t for t in rstok.tokenize(open(path, encoding="utf-8").read()) if t.k not in ("ws", "comment")]
+    except Exception as e:
+        res["undecided_reason"] = "cannot tokenize src/lib.rs: %s" % e
+        return res
+    i, n = 0, len(toks)
+    bad = []
+    while i < n:
+        if toks[i].s == "impl" and i + 3 < n and toks[i + 1].s == "Zeroize" and toks[i + 2].s == "for":
+            ty = toks[i + 3].s
+            j = i + 4
+            while j < n and toks[j].s != "{":
+                j += 1
+            end = rstok.match_close(toks, j)
+            body = toks[j + 1:end]
+            # the fn body
+            k = next((x for x, t in enumerate(body) if t.s == "fn"), None)
+            o = next((x for x in range(k or 0, len(body)) if body[x].s == "{"), None)
+            res["obligations"] += 1
+            why = None
+            if k is None or o is None:
+                why = "no fn zeroize body found"
+            else:
+                c = rstok.match_close(body, o)
+                text = " ".join(t.s for t in body[o + 1:c]).replace(": :", "::")
+                stmts = [x.strip() for x in text.split(";") if x.strip()]
+                first_ok = bool(stmts) and re.match(r"^let Self (\{[^}]*\}|\([^)]*\)) = self$", stmts[0])
+                rest = stmts[1:] if first_ok else stmts
+                for st in rest:
+                    if not re.match(r"^(self \. )?[A-Za-z_][A-Za-z0-9_]*( \. [0-9A-Za-z_]+)* \. zeroize \( \)$", st):
+                        why = "statement other than `<field>.zeroize()`: `%s`" % st[:100]
+                        break
+                if why is None and not rest:
+                    why = "no field is zeroized"
+            if why:
+                bad.append((ty, toks[i].line, why))
+            else:
+                res["discharged"] += 1
+            res["functions_verified"].append("crate::%s::Zeroize__zeroize: only volatile `<field>.zeroize()` wipes (src/lib.rs:%d)" % (ty, toks[i].line))
+            i = end
+        i += 1
+    res["trusted_base"] = ["zeroize::Zeroize for primitives / arrays / ArrayVec writes volatile zeros (the crate's guarantee)"]
+    res["samples"] = [{"obligation": "impl Zeroize bodies consist of a destructuring and `<field>.zeroize()` statements only"}]
+    if res["obligations"] == 0:
+        res["undecided_reason"] = "no `impl Zeroize for` found in src/lib.rs"
+        return res
+    if not bad:
+        res["status"] = "pass"
+        return res
+    res["status"] = "fail"
+    for ty, line, why in bad[:5]:
+        res["failed"].append(failed_obligation("crate::%s::Zeroize__zeroize" % ty, "other",
+                                               "the wipe is not made of volatile `.zeroize()` calls only: %s" % why,
+                                               location="src/lib.rs:%d" % line,
+                                               clause="after zeroize() nothing is left behind (volatile writes that the optimiser cannot drop)"))
+    return res
+
+
 def run_hash_serde_derive():
     """serde clause of C14 ("conversions through serde are lossless"): the Serialize / Deserialize impls of `Hash` are
     macro-generated and outside the contracts; what is ASSUMED is serde_derive's behaviour for a newtype over
@@ -534,6 +608,8 @@ def run_hash_serde_derive():
 
 
 def run_unit(name, tier="quick"):
+    if name == "zeroize_volatile":
+        return run_zeroize_volatile()
     if name == "c_functional_text":
         return run_c_functional_text()
     if name == "hash_serde_derive":
